@@ -177,7 +177,7 @@ CHECK_DEADLOCK FALSE
 
 
 def check_two_stage(ctx):
-    ctx.tlc("TwoStage", "MC_TwoStage", cfg_text=mc_cfg(True, True, ["Stage1Right", "Stage2Right", "Stage2First", "LoopIsScan", "EnumerationRight"], ["Terminates"]),
+    ctx.tlc("TwoStage", "MC_TwoStage", cfg_text=mc_cfg(True, True, ["Stage1Right", "Stage2Right", "Stage2First", "LoopIsScan"], [] if ctx.quick else ["Terminates"]),
             expect_actions=["Stage1Step", "Stage2Step", "Stage2End"], timeout=600, label="TwoStage (extension)")
     ctx.tlc("TwoStage", "MC_TwoStage_tie", cfg_text=mc_cfg(False, True, ["Stage1Right"]), expect_ok=False, timeout=600,
             label="TwoStage control: >= in the tie rule")
